@@ -28,6 +28,12 @@ Matches == /\ Ev.rn = ret'.n /\ ErrMatches(Ev.err, ret'.err)
 
 \* offsets are logged relative to the section start (the machine is translation invariant): base = 0
 TraceNew     == IsEvent("New")     /\ Ev.n >= 0 /\ New(0, Ev.n) /\ Ev.under = <<>>
+\* "End frame": a section longer than 2^30 bytes (up to MaxInt64), observed near its far end.  The driver logs
+\* every position as if the section started Inf = 2^30 bytes before its end; by translation invariance the
+\* pretended section New(0, Inf) behaves like the real one as long as no position within 2^29 of the pretended
+\* start is touched (the driver ends the history before that).  The real cursor starts far below the pretended
+\* start, so the first operation of such a history is always an absolute Seek and the cursor is not compared here.
+TraceNewEnd  == IsEvent("NewEnd")  /\ Ev.n = Inf /\ New(0, Inf) /\ Ev.under = <<>>
 TraceNewAt   == IsEvent("NewAt")   /\ Ev.room >= 0 /\ NewAtRoom(Ev.room) /\ Ev.under = <<>>
 \* (the scripted writer never fails a call that offers no bytes, see the driver)
 TraceWrite   == IsEvent("Write")   /\ Len(Ev.under) <= 1 /\ Write(Ev.p, EnvK, EnvE) /\ Matches
@@ -36,6 +42,6 @@ TraceSeek    == IsEvent("Seek")    /\ Seek(Ev.off, Ev.w) /\ Matches
 TraceSize    == IsEvent("Size")    /\ Size /\ Matches
 
 TraceInit == base = 0 /\ limit = 0 /\ cur = 0 /\ calls = <<>> /\ ret = [n |-> 0, err |-> "nil"] /\ l = 1
-TraceNext == TraceNew \/ TraceNewAt \/ TraceWrite \/ TraceWriteAt \/ TraceSeek \/ TraceSize
+TraceNext == TraceNew \/ TraceNewEnd \/ TraceNewAt \/ TraceWrite \/ TraceWriteAt \/ TraceSeek \/ TraceSize
 TraceSpec == TraceInit /\ [][TraceNext]_tvars
 ===================================================================================
